@@ -47,7 +47,7 @@ def random_programs(path, seed, n):
                 c = rnd.choice(["move_to", "line_to", "curve_to", "rect", "close_path", "stroke", "fill", "fill_stroke", "set_line_width",
                                 "set_line_cap", "set_line_join", "save_state", "restore_state", "transform", "translate", "scale", "end_path",
                                 "clip", "clip_even_odd", "set_fill_color", "set_stroke_color", "begin_text", "end_text", "set_font",
-                                "set_text_position", "show_text", "set_word_spacing", "set_character_spacing"])
+                                "set_text_position", "show_text", "set_word_spacing", "set_character_spacing", "draw_text"])
                 call = {"c": c, "n": []}
                 arity = {"move_to": 2, "line_to": 2, "curve_to": 6, "rect": 4, "set_line_width": 1, "transform": 6, "translate": 2, "scale": 2,
                          "set_text_position": 2, "set_word_spacing": 1, "set_character_spacing": 1, "set_font": 1}.get(c, 0)
@@ -60,6 +60,9 @@ def random_programs(path, seed, n):
                     call["name"] = list(rnd.choice(FONTS).encode())
                 if c == "show_text":
                     call["t"] = rtext(rnd, False)
+                if c == "draw_text":
+                    call["n"] = [rnum(rnd), rnum(rnd)]
+                    call["t"] = [rnd.choice(list(range(32, 127)) + [40, 41, 92, 13, 10, 9, 128, 159, 160, 233, 254, 255]) for _ in range(rnd.randint(0, 20))]
                 prog.append(call)
             out.append({"kind": "g", "prog": prog})
         else:
